@@ -243,6 +243,12 @@ func c06Faults(env *Env, c *Case) []Violation {
 		}
 	}
 	if len(c.Spec.Faults) > 0 {
+		if c.Spec.Faults[0].Kind == "extern" {
+			if pilot := env.Run(base); pilot.Outcome == OutExit {
+				return c06Extern(env, c, base, pilot)
+			}
+			return nil
+		}
 		judge(c.Spec.Faults)
 		return vs
 	}
@@ -287,44 +293,7 @@ func c06Faults(env *Env, c *Case) []Violation {
 			judge([]world.Fault{{AtOp: k, Kind: "kill", Bytes: -1}})
 		}
 	}
-	// another process appends to an unmatched file after the directory walk has
-	// seen it and before gopatch reads it: what is echoed is the file as it is
-	// when read, complete, and the file is still not touched
-	appended := []byte("\n// appended by another process while gopatch was running\nfunc appendedLater() {}\n")
-	for _, f := range c.Files {
-		if f.Role != "nomatch" || len(vs) > 0 {
-			continue
-		}
-		k := -1
-		for i, o := range pilot.Log {
-			if o.Name == "open" && o.Path == f.Path {
-				k = i
-				break
-			}
-		}
-		orig := c.NodeData(f.Path)
-		now := append(append([]byte(nil), orig...), appended...)
-		if k < 0 || ParsesAsGo(now) != nil {
-			continue
-		}
-		spec := base.Clone()
-		spec.Faults = []world.Fault{{AtOp: k, Kind: "extern", Path: f.Path, Data: appended}}
-		r := env.Run(spec)
-		if len(r.Fired) == 0 || r.Outcome != OutExit {
-			continue
-		}
-		env.Probe("file-grows-between-walk-and-read")
-		fail := func(sig, detail string) {
-			cc := c.Clone()
-			cc.Spec.Faults = spec.Faults
-			vs = append(vs, Violation{Oracle: "changed-behind-the-back", Signature: "C06/changed-behind-the-back/" + sig, Case: cc, Detail: detail + fmt.Sprintf(" [%s grew by %d bytes after the walk, before it was read; args %v]", f.Path, len(appended), c.Spec.Args)})
-		}
-		if after := FindState(r.Final, f.Path); after == nil || !bytes.Equal(after.Data, now) {
-			fail("file-rewritten", fmt.Sprintf("unmatched file %s does not hold what the other process left in it", f.Path))
-		} else if r.Exit == 0 && c.Flags.Print && !bytes.Contains(r.Stdout, now) {
-			fail("echo-stale", fmt.Sprintf("--print-only exits 0 but did not echo the complete current content of unmatched file %s", f.Path))
-		}
-	}
+	vs = append(vs, c06Extern(env, c, base, pilot)...)
 	return vs
 }
 
@@ -543,4 +512,54 @@ func c06Key(c *Case) string {
 	}
 	parts = append(parts, c.Flags.String())
 	return strings.Join(parts, "|")
+}
+
+// c06Extern: another process appends to an unmatched file after the directory
+// walk has seen it and before gopatch reads it. What is echoed is the file as it
+// is when read, complete, and the file is still not touched. With an explicit
+// plan in the case only the file named there is tried.
+func c06Extern(env *Env, c *Case, base world.Spec, pilot *RunResult) []Violation {
+	var vs []Violation
+	// another process appends to an unmatched file after the directory walk has
+	// seen it and before gopatch reads it: what is echoed is the file as it is
+	// when read, complete, and the file is still not touched
+	appended := []byte("\n// appended by another process while gopatch was running\nfunc appendedLater() {}\n")
+	for _, f := range c.Files {
+		if f.Role != "nomatch" || len(vs) > 0 {
+			continue
+		}
+		if len(c.Spec.Faults) > 0 && c.Spec.Faults[0].Path != f.Path {
+			continue
+		}
+		k := -1
+		for i, o := range pilot.Log {
+			if o.Name == "open" && o.Path == f.Path {
+				k = i
+				break
+			}
+		}
+		orig := c.NodeData(f.Path)
+		now := append(append([]byte(nil), orig...), appended...)
+		if k < 0 || ParsesAsGo(now) != nil {
+			continue
+		}
+		spec := base.Clone()
+		spec.Faults = []world.Fault{{AtOp: k, Kind: "extern", Path: f.Path, Data: appended}}
+		r := env.Run(spec)
+		if len(r.Fired) == 0 || r.Outcome != OutExit {
+			continue
+		}
+		env.Probe("file-grows-between-walk-and-read")
+		fail := func(sig, detail string) {
+			cc := c.Clone()
+			cc.Spec.Faults = spec.Faults
+			vs = append(vs, Violation{Oracle: "changed-behind-the-back", Signature: "C06/changed-behind-the-back/" + sig, Case: cc, Detail: detail + fmt.Sprintf(" [%s grew by %d bytes after the walk, before it was read; args %v]", f.Path, len(appended), c.Spec.Args)})
+		}
+		if after := FindState(r.Final, f.Path); after == nil || !bytes.Equal(after.Data, now) {
+			fail("file-rewritten", fmt.Sprintf("unmatched file %s does not hold what the other process left in it", f.Path))
+		} else if r.Exit == 0 && c.Flags.Print && !bytes.Contains(r.Stdout, now) {
+			fail("echo-stale", fmt.Sprintf("--print-only exits 0 but did not echo the complete current content of unmatched file %s", f.Path))
+		}
+	}
+	return vs
 }
